@@ -1,4 +1,5 @@
 import PyYetiVerif.Lemmas.NasFloat
+import PyYetiVerif.Lemmas.NasFloatRat
 import PyYetiVerif.Lemmas.NasCards
 /-!
 # C12 — Nastran number fields: exact width, best precision; cards round-trip
@@ -66,14 +67,154 @@ example : ∃ r ∈ neg8, ∃ x : Dbl, isFixed r = true ∧ RowOK 8 true r ∧ x
   ⟨⟨10, 1, true, 5, 2, 0, 1⟩, by decide, ⟨true, 9999996, 1000000⟩, by decide, by decide, rfl, by decide,
     fixed_branch_width 8 sci8 true _ (by decide) _ rfl (by decide)⟩
 
-/-- Accuracy of the rounding step of a fixed-notation branch (`'%.pf'`): the integer `N` whose
-digits are printed satisfies `|N/10^p − num/den| ≤ ½·10^{-p}` (stated without division).
-[partial: that `strip`/`replace`/`nas_sscanf` preserve the value of the digits is established by
-the correspondence and the oracle, not proved.] -/
-theorem fixed_branch_accuracy_partial (p : Nat) (x : Dbl) (hden : 0 < x.den) :
-    let N := rheDiv (x.num * 10 ^ p) x.den
-    2 * (N * x.den) ≤ 2 * (x.num * 10 ^ p) + x.den ∧ 2 * (x.num * 10 ^ p) ≤ 2 * (N * x.den) + x.den :=
-  rheDiv_err _ _ hden
+/-! ## the reader on emitted fields -/
+
+/-- `nas_sscanf` on the grammar of emitted real fields (`Spec/NasFloatField`:
+`' '* [-] digit* '.' digit* [[D](+|-)digit+]`, at least one mantissa digit, exponent ≤ 5000): every
+well-formed field, with any left padding, is read as a *real* (never as an integer, a string or a
+blank) — the double nearest (ties to even) to the decimal `± ip.fp · 10^{±exp}` the field denotes.
+Covers the `d → e` rewriting and the sign-as-exponent rewriting `s[0] + s[1:].replace("+","e+")
+.replace("-","e-")` (`1.5-3`, `-1.5+10`, `.5-3`, `1.D+0`). -/
+theorem sscanf_parses_field (f : Fld) (hwf : f.wf = true) (pad : Nat) (k : Bool) :
+    nasSscanf (List.replicate pad ' ' ++ f.text) k = .flt (toBits f.dec.1 f.dec.2.1 f.dec.2.2) :=
+  nasSscanf_field f hwf pad k
+
+/-- the same with the grammar as a decidable predicate on strings: whatever the recogniser
+`fieldOf?` accepts is read as the real nearest to the decimal of the recognised field. -/
+theorem sscanf_parses_recognised (s : Str) (f : Fld) (h : fieldOf? s = some f) (k : Bool) :
+    nasSscanf s k = .flt (toBits f.dec.1 f.dec.2.1 f.dec.2.2) :=
+  nasSscanf_of_fieldOf? s f h k
+
+/-- non-vacuity: `1.5-3`, `-1.235+7` (sign as exponent), `1.2345678D+0`, `-.5` are in the grammar -/
+example : (fieldOf? "   1.5-3".toList).isSome ∧ (fieldOf? "-1.235+7".toList).isSome ∧
+    (fieldOf? "    1.2345678D+0".toList).isSome ∧ (fieldOf? "     -.5".toList).isSome ∧
+    fieldOf? "     123".toList = none ∧ fieldOf? "GRID".toList = none := by decide
+
+/-! ## fixed-notation branches end to end -/
+
+/-- **Accuracy of a fixed-notation branch, end to end.**  For a row satisfying `RowOK` and every
+fraction `x = ± num/den` of the row's sign with `10^-p ≤ |x|` (one unit of the last decimal), the
+branch emits a well-formed field `f` of the grammar, right-justified (`strip(" 0")`,
+`replace("-0.", "-.")` preserve the value of the printed digits); `nas_sscanf` reads the emitted
+text back as the real nearest to the decimal of `f`; and that decimal is within half a unit of the
+last decimal of `x`: `|field − x| ≤ ½·10^-p`. -/
+theorem fixed_branch_accuracy (W : Nat) (c : Sci) (neg : Bool) (r : Row) (hr : RowOK W neg r)
+    (x : Dbl) (hneg : x.neg = neg) (hden : 0 < x.den) (hlo : x.den ≤ x.num * 10 ^ r.prec) (k : Bool) :
+    ∃ f : Fld, f.wf = true ∧ f.ex = none ∧ f.neg = neg ∧ f.fp.length ≤ r.prec ∧
+      rowBody W c neg r x = rjust W f.text ∧
+      nasSscanf (rowBody W c neg r x) k = .flt (toBits f.dec.1 f.dec.2.1 f.dec.2.2) ∧
+      |decRat f.dec - dblRat x| ≤ 1 / 2 * (10 : ℚ) ^ (-(r.prec : Int)) := by
+  simp only [RowOK] at hr
+  obtain ⟨_, _, _, hp, hk3, hkind, _⟩ := hr
+  have hkind' : r.kind = 2 ∨ (r.kind = 3 ∧ neg = true) := by
+    rcases hkind with h | h
+    · exact Or.inl h
+    · exact Or.inr ⟨h, (hk3.1 h).1⟩
+  have hshape := rowBody_shape W c neg r hp hkind' x hneg
+  have hN : 0 < rheDiv (x.num * 10 ^ r.prec) x.den :=
+    rheDiv_ge _ _ 1 hden (by simpa using hlo)
+  refine ⟨_, fixedFld_wf _ _ _ _ hN, rfl, rfl, (fixedFld_val _ _ _ _).1, hshape, ?_,
+    fixed_rat_err neg _ r.prec x hden hneg⟩
+  rw [hshape, rjust]
+  exact nasSscanf_field _ (fixedFld_wf _ _ _ _ hN) _ k
+
+/-- **`p` is the largest precision that fits**: no fixed-notation field `[-]ip.fp` of at most `W`
+characters for a number of the row's sign with `k` integer digits (`10^(k-1) ≤ ip`, `k` the row's
+decade) carries more than the row's `p` decimals — so the half unit `½·10^-p` of
+`fixed_branch_accuracy` is the best a `W`-wide fixed-notation field can do. -/
+theorem fixed_precision_maximal (W : Nat) (neg : Bool) (r : Row) (hr : RowOK W neg r) (f : Fld)
+    (hwf : f.wf = true) (hex : f.ex = none) (hneg : f.neg = neg) (hlen : f.text.length ≤ W)
+    (hdec : 10 ^ (W - ((if neg then 1 else 0) + 1 + r.prec)) ≤ 10 * digitsVal f.ip) :
+    f.fp.length ≤ r.prec := by
+  simp only [RowOK] at hr
+  obtain ⟨hW, _, _, _, _, _, _⟩ := hr
+  obtain ⟨hip, _, _, _⟩ := wf_parts f hwf
+  have hlt := digitsVal_lt f.ip hip
+  have hk : W - ((if neg then 1 else 0) + 1 + r.prec) ≤ f.ip.length := by
+    by_contra hcon
+    have h1 : f.ip.length + 1 ≤ W - ((if neg then 1 else 0) + 1 + r.prec) := by omega
+    have h2 : 10 ^ (f.ip.length + 1) ≤ 10 ^ (W - ((if neg then 1 else 0) + 1 + r.prec)) :=
+      Nat.pow_le_pow_right (by norm_num) h1
+    rw [pow_succ] at h2
+    omega
+  have htext : f.text.length = (if neg then 1 else 0) + f.ip.length + 1 + f.fp.length := by
+    rcases f with ⟨fneg, ip, fp, ex⟩
+    simp only at hex hneg
+    subst hex hneg
+    cases fneg <;> simp [Fld.text, Fld.mant, Fld.exText] <;> omega
+  omega
+
+/-- non-vacuity: the `[1, 10)` row of the 8-wide positive table at `x = 9.9999996` (a value that
+rounds to the next power of ten) satisfies every hypothesis of `fixed_branch_accuracy`. -/
+example : ∃ r ∈ pos8, ∃ x : Dbl, RowOK 8 false r ∧ x.neg = false ∧ 0 < x.den ∧
+    x.den ≤ x.num * 10 ^ r.prec ∧ x.num * r.den < r.num * x.den :=
+  ⟨⟨10, 1, true, 6, 2, 0, 1⟩, by decide, ⟨false, 99999996, 10000000⟩, by decide, rfl, by decide,
+    by decide, by decide⟩
+
+/-! ## scientific fall-backs -/
+
+/-- the constants of `_format_scientific8`, `_format_scientific16`, `format_double16` as extracted
+from the source satisfy `SciOK`: the field fills the width exactly for either sign and 1–3 exponent
+digits, at least one decimal, first rounding ≥ 2 digits finer than the second, `10^ePrec < 2^50`. -/
+theorem sci_consts_ok : SciOK 8 sci8 0 ∧ SciOK 16 sci16 0 ∧ SciOK 16 dbl16 1 := by decide
+
+/-- **Scientific fall-backs: width, grammar, read-back and accuracy** (generic in the constants).
+For constants satisfying `SciOK` and every fraction `x` with `10^-999 ≤ |x| < 10^999`, the body
+of `_format_scientificW` / `format_double16` returns exactly `W` characters; they are a well-formed
+field of the grammar of the sign of `x` (with the `D` mark iff asked for), which `nas_sscanf` reads
+back as the real nearest to its decimal; and that decimal is within
+`(½·10^-P + ½·10^-q)·10^E` of `x` — half a unit of the last of the `P` decimals the width leaves
+for that sign and exponent `E`, plus half a unit of the `q`-decimal first rounding (`q ≥ P + 2`:
+the 1 % slack of the two-stage rounding; measured maximum 0.5045 units). -/
+theorem sci_width_accuracy (W : Nat) (c : Sci) (dm : Bool) (hc : SciOK W c (if dm then 1 else 0))
+    (x : Dbl) (hn : 0 < x.num) (hd : 0 < x.den)
+    (hlo : x.den ≤ 10 ^ 999 * x.num) (hhi : x.num < 10 ^ 999 * x.den) (k : Bool) :
+    (sciCore W c (if dm then ['D'] else []) x).length = W ∧
+    ∃ f : Fld, f.wf = true ∧ sciCore W c (if dm then ['D'] else []) x = rjust W f.text ∧
+      f.neg = x.neg ∧ (∃ e, f.ex = some e ∧ e.dmark = dm) ∧
+      nasSscanf (sciCore W c (if dm then ['D'] else []) x) k =
+        .flt (toBits f.dec.1 f.dec.2.1 f.dec.2.2) ∧
+      |decRat f.dec - dblRat x| ≤
+        (1 / 2 * (10 : ℚ) ^ (-(sciPrec c x.neg (natDigits f.expVal.natAbs).length : Int)) +
+          1 / 2 * (10 : ℚ) ^ (-(c.ePrec : Int))) * (10 : ℚ) ^ f.expVal := by
+  obtain ⟨f, hwf, hshape, hlen, hneg, _, _, hex, hacc⟩ := sciCore_main W c dm hc x hn hd hlo hhi
+  refine ⟨?_, f, hwf, hshape, hneg, hex, ?_, hacc⟩
+  · rw [hshape]; exact rjust_length_of_le _ _ hlen
+  · rw [hshape, rjust]; exact nasSscanf_field f hwf _ k
+
+/-- `_format_scientific8`, `_format_scientific16` and `format_double16` themselves (zero included:
+`0.` / `0.D+0`): exactly 8 / 16 / 16 characters for every fraction with `10^-999 ≤ |x| < 10^999`
+or `x = 0`. -/
+theorem sci_width (x : Dbl) (hd : 0 < x.den)
+    (hr : x.num = 0 ∨ (x.den ≤ 10 ^ 999 * x.num ∧ x.num < 10 ^ 999 * x.den)) :
+    (formatScientific8 x).length = 8 ∧ (formatScientific16 x).length = 16 ∧
+      (formatDouble16 x).length = 16 := by
+  obtain ⟨h8, h16, hd16⟩ := sci_consts_ok
+  rcases Nat.eq_zero_or_pos x.num with h0 | hn
+  · have hz : x.isZero = true := by simp [Dbl.isZero, h0]
+    simp [formatScientific8, formatScientific16, formatScientific, formatDouble16, hz, rjust]
+  · have hz : x.isZero = false := by
+      have : x.num ≠ 0 := by omega
+      simp [Dbl.isZero, this]
+    rcases hr with h0 | ⟨hlo, hhi⟩
+    · omega
+    · refine ⟨?_, ?_, ?_⟩
+      · simpa [formatScientific8, formatScientific, hz] using
+          (sci_width_accuracy 8 sci8 false h8 x hn hd hlo hhi true).1
+      · simpa [formatScientific16, formatScientific, hz] using
+          (sci_width_accuracy 16 sci16 false h16 x hn hd hlo hhi true).1
+      · simpa [formatDouble16, hz] using
+          (sci_width_accuracy 16 dbl16 true hd16 x hn hd hlo hhi true).1
+
+/-- non-vacuity: `x = 99999.6` (rounds up to the next power of ten in both stages) and
+`x = -1.5e-100` (three exponent digits) satisfy the hypotheses. -/
+example : ∃ x y : Dbl, 0 < x.num ∧ 0 < x.den ∧ x.den ≤ 10 ^ 999 * x.num ∧ x.num < 10 ^ 999 * x.den ∧
+    0 < y.num ∧ 0 < y.den ∧ y.den ≤ 10 ^ 999 * y.num ∧ y.num < 10 ^ 999 * y.den ∧ y.neg = true ∧
+    (formatScientific8 x).length = 8 ∧ (formatDouble16 y).length = 16 :=
+  ⟨⟨false, 999996, 10⟩, ⟨true, 15, 10 ^ 101⟩, by decide, by decide, by decide +kernel,
+    by decide +kernel, by decide, by decide +kernel, by decide +kernel, by decide +kernel, rfl,
+    (sci_width _ (by decide) (Or.inr ⟨by decide +kernel, by decide +kernel⟩)).1,
+    (sci_width _ (by decide +kernel) (Or.inr ⟨by decide +kernel, by decide +kernel⟩)).2.2⟩
 
 /-- Below the carry guard `M − ½` (`M = 10^(W-2)`) the integer written by the final negative
 branch, `int(round(x, 0))`, stays below `M`: it has at most `W − 2` digits, so `-ddddddd.` fits. -/
